@@ -460,6 +460,16 @@ def alt_of(spec, alt):
             if 'inner' in sp: o['inner'] = strip(sp['inner'])
             return o
         return strip(spec)
+    if alt == 'unwrap':
+        # every wrapper that must change nothing is removed at any depth: boxing, CachedSource, ReplaceSource without replacements
+        def strip(sp):
+            if sp['kind'] in ('boxed', 'cached'): return strip(sp['inner'])
+            if sp['kind'] == 'replace' and not sp.get('replacements'): return strip(sp['inner'])
+            o = dict(sp)
+            if 'children' in sp: o['children'] = [strip(c) for c in sp['children']]
+            if 'inner' in sp: o['inner'] = strip(sp['inner'])
+            return o
+        return strip(spec)
     if alt == 'inner':
         sp = spec
         if sp['kind'] in ('concat', 'concat_add') and len(sp['children']) == 1: return sp['children'][0]
@@ -558,6 +568,7 @@ def finish(m, J, s, raw, spec, props, mf, depth=0, subs_raw=None, alt=None):
         obs = to_obs(m, s, mdl, raw, idx); obs['tree'] = concretize_spec(mdl, spec, m, s)
         if alt:
             obs['alt'] = to_obs(m, s, mdl, alt[2], idx); obs['alt_kind'] = alt[0]; obs['alt_prop'] = alt_prop_of(J)
+            obs['alt']['tree'] = concretize_spec(mdl, alt[1])
         if subs_raw:
             obs['subs'] = {name: to_obs(m, s, mdl, sraw, idx) for name, (sp, sraw) in subs_raw.items()}
     except Undetermined as u:
